@@ -74,6 +74,11 @@ CHECKS = {
   text="Generated-input search over rejected/warned projects: perturbed routes are rendered with free text and multibyte characters before the annotations, several controllers per file, several files, type groups; the renderer records where every comment block and declaration is. Every diagnostic from Validate() must name the entity's file, have start<=end, lie inside the file and inside the entity's comment or declaration, cover text equal to an annotation value for value-anchored codes, carry the code/severity expected for the single perturbation applied, and be unique; the CLI's error text must not list a diagnostic twice. Sampling.",
   note="Trusts: rapid; the renderer's span bookkeeping; the expected-code table transcribed from the validators; columns accepted in runes or bytes.",
   ref="6/C18"),
+ "C19": dict(
+  technique="stateful property testing with rapid: generated call histories on one GleecePipeline vs a fresh pipeline; equality of reduction results, diagnostics, graph size and generated artefacts",
+  text="Generated-input search over projects x call histories (GenerateGraph / Validate / GenerateIntermediate / Run in any order after the first graph generation) on one long-lived pipeline; every reduction result must equal the first of the session and a brand-new session's result (import sets compared as sets), Validate() must repeat its diagnostics, node and edge counts obtained through the public graph API must stay constant and equal a fresh session's, and the spec and routes bytes generated from the session's last result must equal those of the fresh session. Sampling.",
+  note="Trusts: rapid; canonical JSON of GleeceFlattenedMetadata as the equality; in-process driving through public pipeline methods.",
+  ref="6/C19"),
 }
 
 NOT_APPLICABLE = []
